@@ -18,6 +18,7 @@ R = z3.RealSort()
 SQ_F = z3.Function('SQ', R, R)        # abstraction of t -> t*t   (series mode)
 SQRT_F = z3.Function('SQRT', R, R)    # sqrt on non-negative reals
 EXP_F = z3.Function('EXP', R, R)
+DIV_F = z3.Function('DIV', R, R, R)     # abstraction of a / b for symbolic b (b != 0)
 
 QUERY_TIMEOUT_MS = 60000
 BRANCH_TIMEOUT_MS = 20000
@@ -172,7 +173,7 @@ def er_le(a, b):
 # --------------------------------------------------------------------------------------------------
 # lemma instantiation for the uninterpreted functions
 # --------------------------------------------------------------------------------------------------
-_UF_NAMES = ('SQ', 'SQRT', 'EXP')
+_UF_NAMES = ('SQ', 'SQRT', 'EXP', 'DIV')
 _APPS_CACHE = {}
 _LEM_CACHE = {}
 
@@ -197,6 +198,8 @@ def _apps_of(f):
                 n = e.decl().name()
                 if n in out:
                     out[n][e.arg(0).get_id()] = e.arg(0)
+            elif e.num_args() == 2 and e.decl().kind() == z3.Z3_OP_UNINTERPRETED and e.decl().name() == 'DIV':
+                out['DIV'][e.get_id()] = e
             stack.extend(e.children())
     if len(_APPS_CACHE) > 50000:
         _APPS_CACHE.clear()
@@ -292,6 +295,30 @@ def uf_lemmas(fmls, pairwise=True, pairwise_limit=400):
                 lem.extend(_cached(('x', t.get_id(), u.get_id()), (t, u), lambda t=t, u=u: [
                     z3.Implies(t >= 0, (t <= SQ_F(u)) == (SQRT_F(t) <= zabs(u))),
                     z3.Implies(t >= 0, (t >= SQ_F(u)) == (SQRT_F(t) >= zabs(u)))]))
+    dv = list(apps['DIV'].values())
+    for e in dv:
+        def mkd(e=e):
+            a, b = e.arg(0), e.arg(1)
+            return [z3.Implies(b > 0, z3.And((e >= 0) == (a >= 0), (e == 0) == (a == 0), (e <= 1) == (a <= b), (e >= 1) == (a >= b))),
+                    z3.Implies(b < 0, z3.And((e >= 0) == (a <= 0), (e == 0) == (a == 0)))]
+        lem.extend(_cached(('dv1', e.get_id()), e, mkd))
+    for i in range(len(dv)):
+        for j in range(i + 1, len(dv)):
+            e1, e2 = dv[i], dv[j]
+
+            def mkd2(e1=e1, e2=e2):
+                a1, b1, a2, b2 = e1.arg(0), e1.arg(1), e2.arg(0), e2.arg(1)
+                l = []
+                if b1.eq(b2):
+                    l.append(z3.Implies(b1 > 0, z3.And((e1 <= e2) == (a1 <= a2), (e1 == e2) == (a1 == a2))))
+                    if _opposite(a1, a2):
+                        l.append(e1 == -e2)
+                elif a1.eq(a2):
+                    l.append(z3.Implies(z3.And(b1 > 0, b2 > 0, a1 >= 0), (b1 <= b2) == (e1 >= e2)) if False else
+                             z3.Implies(z3.And(b1 > 0, b2 > 0, a1 > 0), (b1 <= b2) == (e1 >= e2)))
+                    l.append(z3.Implies(z3.And(b1 > 0, b2 > 0, a1 > 0, b1 == b2), e1 == e2))
+                return l
+            lem.extend(_cached(('dv2', e1.get_id(), e2.get_id()), (e1, e2), mkd2))
     for t in ex:
         lem.extend(_cached(('ex1', t.get_id()), t, lambda t=t: [EXP_F(t) > 0, (t == 0) == (EXP_F(t) == 1), (t <= 0) == (EXP_F(t) <= 1)]))
     if pairwise:
@@ -310,6 +337,8 @@ def exact_defs(fmls):
         d.append(SQ_F(t) == t * t)
     for t in apps['SQRT'].values():
         d.append(z3.Implies(t >= 0, z3.And(SQRT_F(t) >= 0, SQRT_F(t) * SQRT_F(t) == t)))
+    for e in apps['DIV'].values():
+        d.append(z3.Implies(e.arg(1) != 0, e * e.arg(1) == e.arg(0)))
     return d
 
 
